@@ -332,13 +332,21 @@ def run_job(job, tier, inc_extra, keep_dir=None):
             cb += ['--unwindset', u]
         if job.unwindset and job.unwind is None and '--no-unwinding-assertions' not in job.flags:
             cb += ['--unwinding-assertions']
-        if job.object_bits:
-            cb += ['--object-bits', str(job.object_bits)]
         res.cmdline = ' '.join(os.path.basename(x) if x.startswith('/tmp') else x for x in gi[:-2]) + ' ; ' + \
             ' '.join(cb[2:])
         tmo = job.timeout * (3 if tier == 'thorough' else 1)
         ts = time.time()
-        rc, out, dt = run(cb, tmo, mem_gb=job.mem_gb * (2 if tier == 'thorough' else 1))
+        # 12 object bits by default: with cbmc's default of 8 a dfcc-instrumented program silently runs out of object numbers
+        # (spurious 'deallocated dynamic object' failures, no warning); jobs that need a smaller encoding set object_bits explicitly
+        bits = job.object_bits
+        while True:
+            cbx = cb + (['--object-bits', str(bits)] if bits else [])
+            rc, out, dt = run(cbx, tmo, mem_gb=job.mem_gb * (2 if tier == 'thorough' else 1))
+            if 'too many addressed objects' in out and (bits or 8) < 14:
+                bits = (bits or 8) + 2
+                continue
+            break
+        cb = cbx
         res.solver_s = dt
         if rc == -999:
             res.status, res.reason = 'undecided', 'cbmc timeout after %ds' % tmo
